@@ -3,7 +3,7 @@ import LcmProofs.StationarySolve
 namespace Lcm
 
 /-! C10 for the executable `solve`, every period: permuting the declaration order of the **choices** and of the
-**functions** (transition functions keeping their relative order) leaves every value array unchanged. The state axes are
+**functions** leaves every value array unchanged. The state axes are
 the same for both specifications, so the arrays are compared entry by entry; everything about the choices - groups,
 stored rows, segments, dense choice axes, enumeration order of the continuous grids - may differ. -/
 
@@ -12,8 +12,6 @@ structure ChoicePermOf (m m' : Model) : Prop where
   states : m'.states = m.states
   choices : m.choices.Perm m'.choices
   functions : m.functions.Perm m'.functions
-  /-- the transition functions keep their relative order -/
-  nexts : (functionInfo m').filter (·.isNext) = (functionInfo m).filter (·.isNext)
 
 theorem ChoicePermOf.permOf {m m' : Model} (h : ChoicePermOf m m') : PermOf m m' :=
   ⟨h.periods, by rw [h.states], h.choices, h.functions⟩
@@ -232,6 +230,7 @@ theorem vhat_state_groups (g g' : Groups) (hS : g'.sS = g.sS) (hD : g'.dS = g.dS
   rw [hS, hD, hC]
 
 theorem uAndF_choicePerm {m m' : Model} (h : ChoicePermOf m m') (hfn : (m.functions.map (·.name)).Nodup)
+    (hnexts : (functionInfo m').filter (·.isNext) = (functionInfo m).filter (·.isNext))
     (P : Params) (t : Nat) (next : Option (Tensor Ext × List (List (Name × Rat)))) (e : Env) :
     uAndF m P (groups m) t next e = uAndF m' P (groups m') t next e := by
   have hp := h.permOf
@@ -247,13 +246,13 @@ theorem uAndF_choicePerm {m m' : Model} (h : ChoicePermOf m m') (hfn : (m.functi
     obtain ⟨V, feas⟩ := nx
     have hd : detOf m P (e ++ periodEnv t) = detOf m' P (e ++ periodEnv t) := by
       unfold detOf
-      rw [h.nexts]
+      rw [hnexts]
       apply mapM_congr_option
       intro fi _
       rw [hp.fuel, callF_congr_funcs m m' hf P]
     have hw : wrowsOf m P (e ++ periodEnv t) = wrowsOf m' P (e ++ periodEnv t) := by
       unfold wrowsOf
-      rw [h.nexts]
+      rw [hnexts]
       apply mapM_congr_option
       intro n _
       rw [hf n]
